@@ -45,6 +45,7 @@ class UnitResult:
         self.meta = None
         self.undecided = []       # list of reasons
         self.soft_undecided = []  # clause-scoped (a dropped hint): do not mask decided failures of other clauses
+        self.contractless = {}    # fn id -> contract-less helpers it calls (its failed clauses are undecided)
         self.stubbed = {}         # fn id -> why its body could not be brought into the view (own obligations undecided)
         self.failures = []        # dicts: obligation, fn, label, kind, message, origin, rendered, props
         self.fn_success = {}      # fn short name -> bool
@@ -199,6 +200,19 @@ def run_unit(unit, twin=False, rlimit=None, threads=2, auto_fns=None, _depth=0, 
             res.soft_undecided.append(f'{f["obligation"]} fails, but the proof hint anchored on /{dropped[0]["anchor"]}/ that supports it '
                                  f'lost its anchor (the function body changed): cannot tell a broken clause from a missing hint')
             continue
+        # the failing function calls a helper that was pulled into the view WITHOUT a contract (a function the change introduced or
+        # started to use): modular checking learns nothing from such a call, so a failure here cannot be told from a missing contract
+        if not twin:
+            fnrec = next((x for x in g.fns if x['id'] == f['fn']), None)
+            autos = [x['name'] for x in g.fns if x.get('auto')]
+            if fnrec is not None and not fnrec.get('auto') and autos:
+                body = '\n'.join(g.lines[fnrec['gen_start'] - 1:fnrec['gen_end']])
+                used = [a for a in autos if re.search(r'\b' + re.escape(a) + r'\s*\(', body)]
+                if used:
+                    res.soft_undecided.append(f'{f["obligation"]} fails in a function that calls {", ".join(used)} -- helper(s) without a contract, '
+                                              f'included from /repo as they are: a broken clause cannot be told from a missing contract (needs a contract in /verif/units)')
+                    res.contractless.setdefault(f['fn'], []).extend(used)
+                    continue
         res.failures.append(f)
     if p.returncode != 0 and not res.failures and not res.undecided:
         res.undecided.append('verus exit %d with no mapped diagnostic: %s' % (p.returncode, p.stderr[-1500:]))
